@@ -1,4 +1,6 @@
 import Tau.Properties.C06
+import Tau.Properties.C07
+import Tau.Proofs.Batch
 /-
   C17 — Order of operands never decides whether and/or is true.
 -/
@@ -76,5 +78,123 @@ theorem and_group_congr_truth (xs ys : List Tri) (h : List.Forall₂' xs ys) :
 /-- Non-vacuity: the exactness of `or` is strict (a false/missing pair really is order-sensitive for
     `and`, which is why only truth is claimed there). -/
 example : Tri.and [.f, .m] = .f ∧ Tri.and [.m, .f] = .m ∧ Tri.or [.f, .m] = Tri.or [.m, .f] := by decide
+
+end Tau.C17
+
+namespace Tau.C17
+open Tau
+
+/-- **The order of the members of a list never matters** (exactly, as a three-valued result):
+    two lists under the same plain key that are permutations of each other evaluate alike on every
+    document — whatever automata / regex sets the parser batches each of them into. -/
+theorem list_members_perm (E : RegexEngine) (ic : Bool) (f : Str) (s s' : List Yaml) (x x' : Expr)
+    (hp : s.Perm s')
+    (h : parseVal E ic (.field f) f none (.seq s) = .ok x)
+    (h' : parseVal E ic (.field f) f none (.seq s') = .ok x') (K : IdentK) (d : Doc) :
+    solveG E K d x = solveG E K d x' := by
+  rw [C07.list_is_or_of_members E ic f s x h, C07.list_is_or_of_members E ic f s' x' h']
+  exact Tri.or_perm (hp.map _)
+
+def pairOpt (E : RegexEngine) (ic : Bool) (p : Yaml × Yaml) : Option Expr :=
+  match parsePair E ic p with
+  | .ok e => some e
+  | .error _ => none
+
+theorem parseEntries_filterMap (E : RegexEngine) (ic : Bool) :
+    ∀ (kvs : List (Yaml × Yaml)) (es : List Expr), parseEntries E ic kvs = .ok es →
+      es = kvs.filterMap (pairOpt E ic) ∧ es.length = kvs.length
+  | [], es, h => by simp [parseEntries] at h; subst h; exact ⟨rfl, rfl⟩
+  | p :: rest, es, h => by
+    simp only [parseEntries] at h
+    split at h
+    · cases h
+    · rename_i x hx
+      split at h
+      · cases h
+      · rename_i xs hxs
+        cases h
+        obtain ⟨h1, h2⟩ := parseEntries_filterMap E ic rest xs hxs
+        refine ⟨?_, by simp [h2]⟩
+        rw [List.filterMap_cons]
+        simp only [pairOpt, hx]
+        rw [← h1]
+
+/-- **The order of the entries of a mapping never decides whether it is true.** -/
+theorem mapping_entries_perm_truth (E : RegexEngine) (ic : Bool) (kvs kvs' : List (Yaml × Yaml)) (x x' : Expr)
+    (hp : kvs.Perm kvs')
+    (h : parseMapping E ic kvs = .ok x) (h' : parseMapping E ic kvs' = .ok x') (K : IdentK) (d : Doc) :
+    (solveG E K d x = .t) ↔ (solveG E K d x' = .t) := by
+  unfold parseMapping at h h'
+  cases he : parseEntries E ic kvs with
+  | error e => rw [he] at h; simp [finishMapping] at h
+  | ok es =>
+    cases he' : parseEntries E ic kvs' with
+    | error e => rw [he'] at h'; simp [finishMapping] at h'
+    | ok es' =>
+      rw [he] at h; rw [he'] at h'
+      obtain ⟨e1, l1⟩ := parseEntries_filterMap E ic kvs es he
+      obtain ⟨e2, l2⟩ := parseEntries_filterMap E ic kvs' es' he'
+      have hperm : es.Perm es' := by rw [e1, e2]; exact hp.filterMap _
+      have hval : ∀ (l : List Expr) (y : Expr), finishMapping (.ok l) = .ok y →
+          ((solveG E K d y = .t) ↔ (Tri.and (l.map (solveG E K d)) = .t)) := by
+        intro l y hy
+        match l, hy with
+        | [a], hy => simp [finishMapping] at hy; subst hy; simp [Tri.and_eq_t_iff]
+        | a :: b :: r, hy =>
+          simp [finishMapping] at hy; subst hy
+          rw [C06.solve_group_and]
+      rw [hval es x h, hval es' x' h']
+      exact Tri.and_t_perm (hperm.map _)
+
+end Tau.C17
+
+namespace Tau.C17
+open Tau
+
+def mapOpt (E : RegexEngine) (ic : Bool) (y : Yaml) : Option Expr :=
+  match y with
+  | .map m => (match parseMapping E ic m with | .ok e => some e | .error _ => none)
+  | _ => none
+
+theorem go_filterMap (E : RegexEngine) (ic : Bool) :
+    ∀ (ys : List Yaml) (es : List Expr), parseIdentifier.go E ic ys = .ok es →
+      es = ys.filterMap (mapOpt E ic)
+  | [], es, h => by simp [parseIdentifier.go] at h; subst h; rfl
+  | y :: rest, es, h => by
+    cases y with
+    | map m =>
+      simp only [parseIdentifier.go] at h
+      split at h
+      · cases h
+      · rename_i x hx
+        split at h
+        · cases h
+        · rename_i xs hxs
+          cases h
+          rw [List.filterMap_cons]
+          simp only [mapOpt, parseMapping, hx]
+          rw [← go_filterMap E ic rest xs hxs]
+    | _ => simp [parseIdentifier.go] at h
+
+/-- **The order of the mappings of a sequence identifier never matters** (exactly). -/
+theorem identifier_sequence_perm (E : RegexEngine) (ic : Bool) (ys ys' : List Yaml) (x x' : Expr)
+    (hp : ys.Perm ys')
+    (h : parseIdentifier E ic (.seq ys) = .ok x) (h' : parseIdentifier E ic (.seq ys') = .ok x')
+    (K : IdentK) (d : Doc) : solveG E K d x = solveG E K d x' := by
+  have key : ∀ (zs : List Yaml) (z : Expr), parseIdentifier E ic (.seq zs) = .ok z →
+      ∃ es, z = .group .or es ∧ es = zs.filterMap (mapOpt E ic) := by
+    intro zs z hz
+    cases zs with
+    | nil => simp [parseIdentifier] at hz
+    | cons a r =>
+      simp only [parseIdentifier] at hz
+      split at hz
+      · cases hz
+      · rename_i es hes
+        cases hz
+        exact ⟨es, rfl, go_filterMap E ic _ es hes⟩
+  obtain ⟨es, rfl, e1⟩ := key ys x h
+  obtain ⟨es', rfl, e2⟩ := key ys' x' h'
+  exact or_group_perm E K d (by rw [e1, e2]; exact hp.filterMap _)
 
 end Tau.C17
